@@ -403,7 +403,7 @@ func step(st linState, op model.Op, out linOut) (bool, linState) {
 			st.nodes[op.N] = op.Pol == 2
 		}
 	case "regpipe":
-		k := op.ET + "/" + op.P
+		k := op.ET + "\x00" + op.P
 		old, exists := st.pipes[k]
 		want := op.Pol != 3 && !(exists && old.deny)
 		for _, id := range op.IDs {
@@ -423,13 +423,13 @@ func step(st linState, op model.Op, out linOut) (bool, linState) {
 			st.pipes[k] = linPipe{ids: strings.Join(op.IDs, ","), deny: op.Pol == 2}
 		}
 	case "rmpipe":
-		k := op.ET + "/" + op.P
+		k := op.ET + "\x00" + op.P
 		if _, ok := st.pipes[k]; ok {
 			st = st.clone()
 			delete(st.pipes, k)
 		}
 	case "rpan":
-		k := op.ET + "/" + op.P
+		k := op.ET + "\x00" + op.P
 		p, exists := st.pipes[k]
 		if exists != out.ok {
 			return false, st
@@ -473,7 +473,7 @@ func step(st linState, op model.Op, out linOut) (bool, linState) {
 	case "isany":
 		any := false
 		for k := range st.pipes {
-			if strings.HasPrefix(k, op.ET+"/") {
+			if strings.HasPrefix(k, op.ET+"\x00") {
 				any = true
 			}
 		}
@@ -496,6 +496,13 @@ var linModel = porcupine.Model{
 	},
 }
 
+// name pools with colliding families (white-space-only names, surrounding white space, case, a separator moved
+// between event type and pipeline id)
+var (
+	linETs  = []string{"A", "B", "A", "B", "A ", " ", "A/x"}
+	linPIDs = []string{"p", "q", "p", "q", " ", "\t", "p ", "P", "x/p"}
+)
+
 func genLinOp(t *rapid.T) model.Op {
 	ids := []string{"f", "m", "s", "s2"}
 	switch rapid.SampledFrom([]int{0, 0, 1, 1, 1, 2, 3, 4, 5, 6, 7, 8}).Draw(t, "k") {
@@ -505,19 +512,19 @@ func genLinOp(t *rapid.T) model.Op {
 		return model.Op{K: "regnode", N: rapid.SampledFrom(ids).Draw(t, "n"), Pol: rapid.SampledFrom([]int{0, 0, 1, 2, 3}).Draw(t, "pol"), Shape: rapid.SampledFrom([]int{0, 3}).Draw(t, "shape")}
 	case 1:
 		l := rapid.SampledFrom([][]string{{"m", "s"}, {"f", "m", "s"}, {"m", "s2"}, {"f", "s"}, {"f", "f", "m", "s2"}}).Draw(t, "ids")
-		return model.Op{K: "regpipe", ET: rapid.SampledFrom([]string{"A", "B"}).Draw(t, "et"), P: rapid.SampledFrom([]string{"p", "q"}).Draw(t, "p"), IDs: l, Pol: rapid.SampledFrom([]int{0, 0, 0, 1, 2}).Draw(t, "ppol")}
+		return model.Op{K: "regpipe", ET: rapid.SampledFrom(linETs).Draw(t, "et"), P: rapid.SampledFrom(linPIDs).Draw(t, "p"), IDs: l, Pol: rapid.SampledFrom([]int{0, 0, 0, 1, 2}).Draw(t, "ppol")}
 	case 2:
-		return model.Op{K: "rmpipe", ET: rapid.SampledFrom([]string{"A", "B"}).Draw(t, "et"), P: rapid.SampledFrom([]string{"p", "q"}).Draw(t, "p")}
+		return model.Op{K: "rmpipe", ET: rapid.SampledFrom(linETs).Draw(t, "et"), P: rapid.SampledFrom(linPIDs).Draw(t, "p")}
 	case 3:
-		return model.Op{K: "rpan", ET: rapid.SampledFrom([]string{"A", "B"}).Draw(t, "et"), P: rapid.SampledFrom([]string{"p", "q"}).Draw(t, "p")}
+		return model.Op{K: "rpan", ET: rapid.SampledFrom(linETs).Draw(t, "et"), P: rapid.SampledFrom(linPIDs).Draw(t, "p")}
 	case 4:
 		return model.Op{K: "rmnode", N: rapid.SampledFrom(ids).Draw(t, "n")}
 	case 5:
-		return model.Op{K: "thr", ET: rapid.SampledFrom([]string{"A", "B"}).Draw(t, "et"), V: rapid.IntRange(-1, 3).Draw(t, "v")}
+		return model.Op{K: "thr", ET: rapid.SampledFrom(linETs).Draw(t, "et"), V: rapid.SampledFrom([]int{-1, 0, 1, 2, 3, 0, 1, 2, math.MaxInt, 1 << 50}).Draw(t, "v")}
 	case 6:
-		return model.Op{K: "getthr", ET: rapid.SampledFrom([]string{"A", "B"}).Draw(t, "et")}
+		return model.Op{K: "getthr", ET: rapid.SampledFrom(linETs).Draw(t, "et")}
 	default:
-		return model.Op{K: "isany", ET: rapid.SampledFrom([]string{"A", "B"}).Draw(t, "et")}
+		return model.Op{K: "isany", ET: rapid.SampledFrom(linETs).Draw(t, "et")}
 	}
 }
 
